@@ -63,10 +63,13 @@ func ruleNumericReferenceDecoders(w *World, r *Report) {
 				d := dec{fn: fn, call: c, base: -1, k: -1}
 				baseParam, kParam := -1, -1
 				kAdj := int64(0)
+				var basePhi, kPhi *ssa.Phi // base and limit selected together (one variable each, set in the same arms)
 				if bv, ok := constInt(c.Common().Args[1]); ok {
 					d.base = bv
 				} else if p, ok := stripConv(c.Common().Args[1]).(*ssa.Parameter); ok {
 					baseParam = paramIndex(fn, p)
+				} else if ph, ok := stripConv(c.Common().Args[1]).(*ssa.Phi); ok {
+					basePhi = ph
 				}
 				for _, cf := range dominatingConds(b) {
 					for _, a := range condAtoms(cf.If.Cond, cf.Truth) {
@@ -94,8 +97,34 @@ func ruleNumericReferenceDecoders(w *World, r *Report) {
 							} else if p, ok := stripConv(bo.Y).(*ssa.Parameter); ok {
 								kParam = paramIndex(fn, p)
 								kAdj = adj
+							} else if ph, ok := stripConv(bo.Y).(*ssa.Phi); ok {
+								kPhi = ph
+								kAdj = adj
 							}
 						}
+					}
+				}
+				if basePhi != nil && kPhi != nil && basePhi.Block() == kPhi.Block() {
+					// one decoder instance per arm that sets the pair
+					seenPair := map[[2]int64]bool{}
+					allConst := true
+					for e := range basePhi.Edges {
+						bv, ok1 := constInt(basePhi.Edges[e])
+						kv, ok2 := constInt(kPhi.Edges[e])
+						if !ok1 || !ok2 {
+							allConst = false
+							break
+						}
+						if !seenPair[[2]int64{bv, kv}] {
+							seenPair[[2]int64{bv, kv}] = true
+							decs = append(decs, dec{fn: fn, call: c, base: bv, k: kv + kAdj})
+						}
+					}
+					if allConst {
+						continue
+					}
+					for len(decs) > 0 && decs[len(decs)-1].call == c {
+						decs = decs[:len(decs)-1]
 					}
 				}
 				if baseParam < 0 && kParam < 0 {
